@@ -356,10 +356,16 @@ fn leaves_generic<Pk: KeyOf, Ctx: ScriptContext>(ctx: CtxK, a: &Atoms) -> Vec<Ty
             v.push(Node::MultiA(1, ks[..2].to_vec()));
             v.push(Node::MultiA(2, ks[..2].to_vec()));
             v.push(Node::SortedMultiA(1, vec![ks[1], ks[0]]));
+            // listing order, x-only order (208,201,209) and compressed-encoding order
+            // (201,209,208: the parity byte comes first) all differ
+            let b = ks[0] / 100 * 100;
+            v.push(Node::SortedMultiA(2, vec![b + 9, b + 8, b + 1]));
         } else {
             v.push(Node::Multi(1, ks[..2].to_vec()));
             v.push(Node::Multi(2, ks[..2].to_vec()));
             v.push(Node::SortedMulti(1, vec![ks[1], ks[0]]));
+            // listing order, compressed order (1,9,8) and x-only order (8,1,9) all differ
+            v.push(Node::SortedMulti(2, vec![9, 8, 1]));
         }
     }
     v.into_iter().filter_map(typed::<Pk, Ctx>).collect()
